@@ -24,7 +24,7 @@ DEFAULT = {
     "p_go": 0.75, "p_let": 0.2, "p_timeout": 0.15, "p_repeat": 0.15, "p_poke": 0.3, "p_ctx_extra": 0.3,
     "naux": (0, 2), "p_aux": 0.25, "p_caux": 0.2, "p_done": 0.5, "nslaves": (0, 1), "p_fiat": 0.3, "p_bid": 0.15,
     "p_marker": 0.0, "p_env": 0.8, "ticks": (6, 30), "periods": ["0.125", "0.25", "0.0625"], "p_status_need": 0.1,
-    "p_inactive": 0.2, "p_period": 0.2, "go_targets": "any",
+    "p_inactive": 0.2, "p_period": 0.2, "go_targets": "any", "p_auxdone": 0.0, "p_done_named": 0.0,
 }
 
 
@@ -41,7 +41,7 @@ def _cmp_need(g, neg_ok=True):
     return n
 
 
-def _need(g, cfg, framer_names, P, allow_marker=True):
+def _need(g, cfg, framer_names, P, allow_marker=True, aux_names=()):
     r = g.random()
     if allow_marker and r < cfg["p_marker"]:
         n = {"t": g.choice(["updated", "changed"]), "path": g.choice(SHARES)}
@@ -55,6 +55,10 @@ def _need(g, cfg, framer_names, P, allow_marker=True):
         if "frame" not in n:
             n["frame"] = None
         return n
+    if aux_names and g.random() < cfg["p_auxdone"]:
+        if g.random() < 0.6:
+            return {"t": "auxdone", "sel": g.choice(["any", "all"]), "neg": g.random() < 0.3}
+        return {"t": "done", "who": g.choice(aux_names), "neg": g.random() < 0.3}
     if r < 0.55:
         return _cmp_need(g)
     if r < 0.75:
@@ -116,6 +120,9 @@ def _frames(g, cfg, prefix, framer_names, P, aux_names, slave_names, is_aux=Fals
                     acts.append({"k": "aux", "name": ax, "needs": [_need(g, cfg, [], P, allow_marker=False) for _ in range(g.randint(1, 2))]})
                     if g.random() < 0.5:
                         acts.append({"k": "rec", "ctx": "precur", "tag": "%s.precur2" % nm})
+            for nm2 in list(aux_names) + list(slave_names):
+                if g.random() < cfg["p_done_named"]:
+                    acts.append({"k": "done", "ctx": g.choice(["enter", "recur", "exit"]), "who": [nm2]})
             for sl in slave_names:
                 if g.random() < cfg["p_fiat"]:
                     acts.append({"k": "fiat", "ctx": g.choice(["enter", "recur", "exit"]), "control": g.choice(["ready", "start", "run", "run", "stop", "abort"]), "who": sl})
@@ -130,7 +137,7 @@ def _frames(g, cfg, prefix, framer_names, P, aux_names, slave_names, is_aux=Fals
                 far = g.choice(names + (["next"] if has_next else []) + ["me"])
             else:
                 far = g.choice(names)
-            needs = [_need(g, cfg, framer_names, P) for _ in range(g.choice([0, 1, 1, 1, 2]))]
+            needs = [_need(g, cfg, framer_names, P, aux_names=([] if is_aux else aux_names)) for _ in range(g.choice([0, 1, 1, 1, 2]))]
             acts.append({"k": "go", "far": far, "needs": needs})
         if has_next and g.random() < cfg["p_timeout"]:
             k = g.randint(0, 6)
